@@ -227,7 +227,7 @@ structure PartOK (d : Bytes) (p : Bytes × Bytes) : Prop where
   nodelim : NoDelim d (framed p)
 
 theorem mpParts_framed (d : Bytes) (ps : List (Bytes × Bytes)) (h : ∀ p ∈ ps, PartOK d p) :
-    mpParts (ps.map framed) = .ok ps := by
+    mpParts (fun _ => .ok ()) (ps.map framed) = .ok ps := by
   induction ps with
   | nil => rfl
   | cons p ps ih =>
@@ -244,7 +244,7 @@ theorem mpDecode_mpEncode (b : Bytes) (ps : List (Bytes × Bytes))
     (h : ∀ p ∈ ps, PartOK (delim b) p) :
     mpDecode b (mpEncode b (sections ps)) = .ok ps := by
   have hd : delim b ≠ [] := by simp [delim]
-  unfold mpDecode
+  unfold mpDecode mpDecodeWith
   rw [mpEncode_eq]
   have hfirst : pySplit (delim b) ((delim b ++ inner (delim b) ps ([0x2D, 0x2D] ++ CRLF)).length + 1)
       (delim b ++ inner (delim b) ps ([0x2D, 0x2D] ++ CRLF)) =
